@@ -43,6 +43,20 @@ func parseProtectedHeaders(encoded string) (*jwsProtectedHeader, error) {
 			Msg: fmt.Sprintf("jws envelope protected header can't be decoded: %s", err.Error())}
 	}
 
+	// encoding/json matches the fields of jwsProtectedHeader case-insensitively
+	// (the last matching member wins), while header names are case-sensitive
+	// for the JWT library that verifies the signature. Reject a header that
+	// differs from a defined header only by letter case (e.g. "ALG"), so that
+	// every layer sees the same "alg", "crit" and Notary Project headers.
+	for key := range protected.ExtendedAttributes {
+		for _, headerKey := range headerKeys {
+			if key != headerKey && strings.EqualFold(key, headerKey) {
+				return nil, &signature.InvalidSignatureError{
+					Msg: fmt.Sprintf("jws envelope protected header %q is ambiguous with header %q", key, headerKey)}
+			}
+		}
+	}
+
 	// delete attributes that are already defined in jwsProtectedHeader.
 	for _, headerKey := range headerKeys {
 		delete(protected.ExtendedAttributes, headerKey)
